@@ -805,6 +805,11 @@ func (vfs *MemFS) Rename(oldpath, newpath string) error {
 		return &os.LinkError{Op: op, Old: oldpath, New: newpath, Err: nErr}
 	}
 
+	if oChild == node(oParent) || nChild != nil && nChild == node(nParent) {
+		// the root directory can't be renamed or replaced.
+		return &os.LinkError{Op: op, Old: oldpath, New: newpath, Err: vfs.err.InvalidArgument}
+	}
+
 	oParent.mu.Lock()
 	defer oParent.mu.Unlock()
 
